@@ -132,6 +132,9 @@ void rt_ledger_reset();                          // single-task harnesses (no rt
 void rt_probe(uint32_t idx);                     // reach probes (counted)
 uint64_t rt_probe_get(uint32_t idx);
 constexpr uint32_t RT_NPROBES = 64;
+// counts of the TLX_VERIF_PROBE("name") hooks of /repo reached in this run
+int rt_named_probes(const char** names, uint64_t* counts, int cap);
+void rt_named_probes_reset();
 
 } // namespace sim
 
